@@ -79,9 +79,15 @@ func vfH_C14_chunks_resp() {
 	p := NewTextParser(make([]byte, 64), make([]byte, 64))
 	var stream []byte
 	var results []string
+	msg := ""
 	switch form {
 	case 0:
-		stream = p.BuildResponse(true, "OK", nil)
+		// a status line of 1..3 symbolic bytes: anything a RESP simple string may hold (no CR, no LF)
+		msg = vfString("msg", vfRange("msglen", 1, 3))
+		for i := 0; i < len(msg); i++ {
+			vfAssume(msg[i] != '\n' && msg[i] != '\r')
+		}
+		stream = p.BuildResponse(true, msg, nil)
 	case 1:
 		stream = p.BuildResponse(false, "ERR bad", nil)
 	case 2:
@@ -106,7 +112,20 @@ func vfH_C14_chunks_resp() {
 	got := p.GetArgs()
 	switch form {
 	case 0:
-		vfAssert(p.GetArgsType() == 1 && len(got) == 1 && got[0] == "OK", "C14: status reply parsed differently")
+		// the same stream in one piece, by a second parser
+		p2 := NewTextParser(make([]byte, 64), make([]byte, 64))
+		whole := vfFeed(p2, stream, false)
+		vfAssert(whole && p2.GetArgsType() == 1 && len(p2.GetArgs()) == 1, "C14: a status reply built by BuildResponse does not parse in one piece")
+		vfAssert(p.GetArgsType() == 1 && len(got) == 1 && got[0] == p2.GetArgs()[0], "C14: a status reply parses differently depending on how the stream is split")
+		hasCR := false
+		for i := 0; i < len(msg); i++ {
+			if msg[i] == '\r' {
+				hasCR = true
+			}
+		}
+		if !hasCR {
+			vfAssert(got[0] == msg, "C14: status reply parsed differently from what was built")
+		}
 	case 1:
 		vfAssert(p.GetArgsType() == 2 && p.GetErrorType() == "ERR" && p.GetErrorMessage() == "bad", "C14: error reply parsed differently")
 	default:
